@@ -107,6 +107,7 @@ void rt_thread_begin(int tid);     // first action of the new thread: park
 void rt_thread_end(int tid);       // last action: hand over, never parks
 void rt_thread_join(int tid);      // blocks (simulated) until tid has exited
 void rt_thread_joined(int tid);    // scheduling point after the real join
+void rt_thread_detach(int tid);    // std::thread::detach(): joined by the controller at the end of the run
 void rt_yield();
 void rt_point();                   // explicit scheduling point
 void rt_await_quiescence();        // T0 only: returns when nobody else can run
